@@ -546,7 +546,11 @@ func (w *World) structDecls(used func(string) bool) string {
 	names := append([]string(nil), w.structOrder...)
 	sort.Strings(names)
 	for _, n := range names {
-		emit(n)
+		// only the struct sorts the query mentions (and what they are built from): a declaration nobody uses still
+		// changes what the solvers do - an unused sort made z3 4.8.12 answer unknown on a goal it proved without it
+		if used == nil || used(n) {
+			emit(n)
+		}
 	}
 	return sb.String()
 }
